@@ -38,7 +38,8 @@ def _cfg(tier):
                profile="falsy" if "falsy_values" not in avoid else "clean", max_depth=3,
                allow_nested_not="not_under_not" not in avoid, allow_empty_cond=False,
                select="any", desc=("entity", "set_of"), force_relate=True, noise=False,
-               dom_kinds=("list", "tuple"), avoid=frozenset(avoid), kw_vars=(1, 6))
+               dom_kinds=("list", "tuple"), avoid=frozenset(avoid), kw_vars=(1, 6),
+               extra_templates=("and_right_nested_cross",) * 3)
 
 
 # ---- rewrites (all choices drawn through Hypothesis) -----------------------------------------------
